@@ -222,7 +222,10 @@ TABLE = [
          doc="piquasso/_simulators/fock/pure/simulation_steps/__init__.py:305-309, fock/general/simulation_steps.py:352-356",
          when="execution",
          sentence="Length of SNAP parameter must be equal to cutoff",
-         make=lambda d, c: {"cls": "SNAP", "modes": [0], "kw": {"theta": {"$": "snap", "k": c + 1}}}),
+         # NOTE (lead): a theta SHORTER than the cutoff is the violation.  Since the /repo fix "SNAP is not
+         # refused on post-measurement branches whose cutoff was reduced" a longer theta is valid (only the
+         # first `cutoff` entries are used), so the mutation must shorten it.
+         make=lambda d, c: {"cls": "SNAP", "modes": [0], "kw": {"theta": {"$": "snap", "k": max(c - 1, 0)}}}),
 ]
 
 
